@@ -236,36 +236,39 @@ def make_fakes():
         """run_sweep_async parks on a controller future.  The job is identified by the measurement key of the
         circuit it was asked to run ("j<cid>_<k>"), so a delivery can be traced to the job it belongs to."""
 
-        def __init__(self, hist, ctl, bits_for=None):
-            self.hist, self.ctl, self.nres, self.bits_for = hist, ctl, 0, bits_for
+        single = True   # True: one resolver per call (Collector); False: log the number of resolvers (batch layer)
+
+        def __init__(self, hist, ctl):
+            self.hist, self.ctl, self.nres = hist, ctl, 0
 
         def identify(self, program):
-            keys = sorted(program.all_measurement_key_names())
-            k = keys[0]
+            k = sorted(program.all_measurement_key_names())[0]
             a, b = k[1:].split("_")
             return (int(a), int(b)), k
+
+        def bits(self, jid, key, repetitions):
+            return np.zeros((repetitions, 1), dtype=np.uint8)
 
         async def run_sweep_async(self, program, params, repetitions=1):
             jid, key = self.identify(program)
             resolvers = list(cirq.to_resolvers(params))
-            self.hist.append(("start", jid, repetitions) if len(resolvers) == 1 and self.single else
-                             ("start", jid, repetitions, len(resolvers)))
+            if self.single:
+                self.hist.append(("start", jid, repetitions))
+            else:
+                self.hist.append(("start", jid, repetitions, len(resolvers)))
 
             def mk():
                 out, rids = [], []
                 for r in resolvers:
                     self.nres += 1
-                    rid = "r%d" % self.nres
                     d = dict(r.param_dict)
                     d["rid"] = self.nres
                     out.append(cirq.ResultDict(params=cirq.ParamResolver(d),
-                                               measurements={key: np.zeros((repetitions, 1), dtype=np.uint8)}))
-                    rids.append(rid)
+                                               measurements={key: self.bits(jid, key, repetitions)}))
+                    rids.append("r%d" % self.nres)
                 return out, (rids[0] if self.single else tuple(rids))
 
             return await self.ctl.park(jid, mk)
-
-        single = True
 
     class ScriptedCollector(cirq.Collector):
         """next_job replays a list of hand-outs: None | (k, reps) | nested lists of those."""
